@@ -530,6 +530,20 @@ void ProtoRun::do_op(const Op &op) {
             hand_to_receiver(d, u.b, u.tampered, u.kind, u.is_mod);
         }
         obs.hs_done = w.cli->is_complete() && w.srv->is_complete();
+    } else if (op.k == "burst") {
+        // op.b application records of one byte each in one direction, delivered as they go (long-lived connection: sequence numbers far
+        // beyond 2^16 under one traffic key)
+        MxEndpoint &e = w.ep(dir);
+        if (e.alive() && e.is_complete()) {
+            Bytes one(1, 0x42);
+            for (int64_t i = 0; i < op.b && e.alive() && !obs.death[0].dead && !obs.death[1].dead; i++) {
+                one[0] = (unsigned char) i;
+                if (e.app_send(one.data(), 1, false) < 0) { break; }
+                obs.sent[dir].push_back(one);
+                if ((i & 63) == 63 || i + 1 == op.b) { w.collect(DIR_C2S); w.collect(DIR_S2C); deliver_all(); }
+            }
+            obs.counters["app.burst_records"] += op.b;
+        }
     } else if (op.k == "wbegin") {
         // first half of a split write on a live, connected session
         MxEndpoint &e = w.ep(dir);
